@@ -12,6 +12,8 @@ Property theorems only (helper lemmas live in `Toq/Proofs/MatrixOps.lean`).
   `commutant` (`Toq/Model/MatrixOps.lean`) satisfy the identities the property states, for all sizes.
 * Part 2: what a `yes` / `no` of the exact deciders of `Toq/Model/MatrixPreds.lean` means.
 * Part 3: the invariances the harness generators rely on (over commutative star rings, all sizes).
+* Part 4: the exact rank routine is Mathlib's `Matrix.rank` (`rank_correct`), and what `spark`, `linIndepV`, the UPB rank
+  test and `commutantDim` therefore compute.
 -/
 namespace Toq.C16
 open Toq.MatrixOps Toq.MatrixPreds
@@ -359,6 +361,76 @@ example : tensor (TensorArgs.power (⟨1, 2, fun _ j => (j + 1 : Int)⟩ : Mat I
 
 /-- the running-sum loop of `majorizes` on `[3,0,0]` against `[1,1,1]` and conversely -/
 example : majLoop [3, 0, 0] [1, 1, 1] 0 0 = true ∧ majLoop [1, 1, 1] [3, 0, 0] 0 0 = false := by
+  decide +kernel
+
+/-! ## Part 4 — the exact rank oracle is Mathlib's rank (correctness of the elimination), and what uses it
+
+`rank`, `spark`, `linIndepV`, the rank test of the UPB search and `commutantDim` all run the shared Gaussian elimination of
+`Toq/Core/Rank.lean`, proved correct in `Toq/Proofs/Rank.lean`.  `qmatToM r c M` is the complex `r × c` matrix denoted by the
+leading block of the exact rows `M`; `colFamily m M cols` the family of its columns with the listed indices. -/
+
+/-- **The exact rank routine is correct.**  For every size and all exact rows, `rank rows cols M` (Gaussian elimination over
+    `ℚ[i]`) equals Mathlib's `Matrix.rank` of the complex `rows × cols` matrix the rows denote. -/
+theorem rank_correct (rows cols : Nat) (M : QMat) : rank rows cols M = (qmatToM rows cols M).rank :=
+  rank_eq_rank rows cols M
+
+/-- **Rank deficiency = a non-zero kernel vector.**  `rank r c M < c` holds exactly when some non-zero `x ∈ ℂ^c` satisfies
+    `M x = 0`.  This is the test of the UPB search (`rank < d_i`: party `i` has a non-zero local vector annihilated by all
+    local factors it received). -/
+theorem rank_lt_cols_iff_kernel (r c : Nat) (M : QMat) :
+    rank r c M < c ↔ ∃ x : Fin c → ℂ, x ≠ 0 ∧ Matrix.mulVec (qmatToM r c M) x = 0 := by
+  rw [rank_correct]; exact Toq.Rank.rank_lt_cols_iff_kernel _
+
+/-- **`is_linearly_independent` decides linear independence**: the exact verdict is `yes` exactly when the `n` vectors
+    (of length `d`, as complex vectors) are linearly independent over `ℂ` … -/
+theorem linIndepV_yes_iff (d n : Nat) (vs : Nat → Nat → QI) :
+    linIndepV d n vs = .yes ↔ LinearIndependent ℂ (fun (k : Fin n) (a : Fin d) => (vs k.val a.val).toC) :=
+  linIndepV_yes_iff' d n vs
+
+/-- … and `no` exactly when they are not (the verdict is never `unknown`). -/
+theorem linIndepV_no_iff (d n : Nat) (vs : Nat → Nat → QI) :
+    linIndepV d n vs = .no ↔ ¬ LinearIndependent ℂ (fun (k : Fin n) (a : Fin d) => (vs k.val a.val).toC) := by
+  rw [← linIndepV_yes_iff]
+  unfold linIndepV Verdict.ofBool
+  split <;> simp
+
+/-- **Each rank test of `spark` decides linear dependence of the selected columns**: `matrix_rank(mat[:, cols]) < len(cols)`
+    with the exact rank holds exactly when the columns `cols` of the matrix are linearly dependent over `ℂ`. -/
+theorem spark_rank_test_iff (m : Nat) (M : QMat) (cols : List Nat) :
+    rank m cols.length (selectCols M cols) < cols.length ↔ ¬ LinearIndependent ℂ (colFamily m M cols) :=
+  rank_selectCols_lt_iff m M cols
+
+/-- **The subsets `spark` runs through are all of them**: some `k`-subset enumerated by `combinations n k` is dependent iff some
+    strictly increasing list of `k` column indices below `n` selects linearly dependent columns. -/
+theorem spark_subsets_complete (m n : Nat) (M : QMat) (k : Nat) :
+    DependentCols m n M k ↔ ∃ cols : List Nat, cols.length = k ∧ cols.Pairwise (· < ·) ∧ (∀ x ∈ cols, x < n) ∧
+      ¬ LinearIndependent ℂ (colFamily m M cols) :=
+  dependentCols_iff m n M k
+
+/-- **`spark`: a zero column gives 1** (the shortcut `np.any(np.all(mat == 0, axis=0))`). -/
+theorem spark_zero_column (m n : Nat) (M : QMat) (h : ∃ j, j < n ∧ ∀ i, i < m → M.get i j = 0) : spark m n M = 1 :=
+  spark_of_zeroCol m n M h
+
+/-- **`spark` is the least number of linearly dependent columns.**  For an `m × n` matrix without a zero column the value `s`
+    returned by the mirror of `spark` (with the exact rank) satisfies `1 ≤ s ≤ min(m,n) + 1`; if `s ≤ min(m,n)` then some `s`
+    columns are linearly dependent; and for every `1 ≤ k < s` every `k` columns are linearly independent
+    (so `s = min(m,n) + 1` is returned exactly when every `min(m,n)` columns are independent). -/
+theorem spark_spec (m n : Nat) (M : QMat) (h : ¬ ∃ j, j < n ∧ ∀ i, i < m → M.get i j = 0) :
+    1 ≤ spark m n M ∧ spark m n M ≤ min m n + 1 ∧
+    (spark m n M ≤ min m n → DependentCols m n M (spark m n M)) ∧
+    (∀ k, 1 ≤ k → k < spark m n M → ¬ DependentCols m n M k) :=
+  spark_spec_aux m n M h
+
+/-- **`commutantDim` is the nullity of the linear system of `commutant`**: `dim² − rank` of the stacked system
+    `[A_g ⊗ 1 − 1 ⊗ A_gᵀ]_g` equals the dimension over `ℂ` of its kernel (rank–nullity with the exact rank). -/
+theorem commutantDim_eq_nullity (dim : Nat) (gens : List (Mat QI)) :
+    commutantDim dim gens
+      = Module.finrank ℂ (LinearMap.ker (qmatToM (gens.length * dim * dim) (dim * dim) (commStack dim gens)).mulVecLin) :=
+  commutantDim_eq dim gens
+
+/-- the routines on concrete matrices: `[[1, 0, 1], [0, i, i]]` has rank 2 and spark 3; `[[1, 2], [2, 4]]` has spark 2 -/
+example : rank 2 3 #[#[1, 0, 1], #[0, ⟨0, 1⟩, ⟨0, 1⟩]] = 2 ∧ spark 2 3 #[#[1, 0, 1], #[0, ⟨0, 1⟩, ⟨0, 1⟩]] = 3
+    ∧ spark 2 2 #[#[1, ⟨2, 0⟩], #[⟨2, 0⟩, ⟨4, 0⟩]] = 2 := by
   decide +kernel
 
 end Toq.C16
